@@ -12,7 +12,7 @@ from lib.common import log
 
 SPEC = common.SPEC / "observer"
 FLAGS = ["-O1", "-g", "-UNDEBUG", "-fsanitize=address,undefined", "-fno-sanitize=nonnull-attribute", "-fno-omit-frame-pointer"]
-PLAN = [("int", ["int", "long"]), ("uns", ["uns"]), ("flt", ["float", "double"]), ("fltc", ["fcoarse"]), ("str", ["str"])]
+PLAN = [("int", ["int", "long"]), ("uns", ["uns"]), ("flt", ["float", "double"]), ("fltc", ["fcoarse"]), ("flte", ["fexact", "dexact"]), ("str", ["str"])]
 ASSUMPTIONS = [
     "floating point values are multiples of 1/4 and the tolerances are 0.3 and 1.5 (the latter larger than one increment), so every comparison and operation is exact in binary",
     "operations stay inside the model's value domain (no integer overflow, no integer division by zero); floating point instantiations also reach 2^24 / 2^53 (where adding 0.25 or 0.5 is absorbed) and the infinities produced by dividing a finite non-zero value by zero",
